@@ -41,6 +41,8 @@ def run(ctx):
     ctx.report.rules[-1].id = "R05.9(R04.3)"
     from .. import wrappers
     wrappers.heartbeat_inc(ctx, rep, roles, "C05", "R05.10")
+    from .. import identity
+    identity.check(ctx, rep, "C05", "R05.11", ["id-eq"])
 
 
 PUB_CHITCHAT_MUT = {"self_node_state": "own copy only", "catchup": "documented catch-up entry (C18)"}
